@@ -528,6 +528,11 @@ func selfContained(kids []*sg.Node, prefix string) bool {
 		if !selfContained(k.Kids, prefix) {
 			return false
 		}
+		for _, sgr := range k.Groupings {
+			if !selfContained(sgr.Kids, prefix) {
+				return false
+			}
+		}
 	}
 	return true
 }
@@ -697,6 +702,19 @@ func genCase(t *rapid.T) Case {
 				&sg.Node{Kind: "container", Name: b, Kids: []*sg.Node{{Kind: "uses", Name: gn, Refines: []sg.Refine{{Target: "shp", Stmts: []string{`presence "refined";`}}},
 					Augments: []*sg.Augment{{Target: "shch/shcs", Kids: []*sg.Node{{Kind: "leaf", Name: "incase", Type: str}}}}}}})
 			m.Augments = append(m.Augments, &sg.Augment{Target: "/" + m.Prefix + ":" + a + "/" + m.Prefix + ":shc", Kids: []*sg.Node{{Kind: "leaf", Name: "extra", Type: str}}})
+		}
+		if g.Chance(1, 5, "namesakegroupings") {
+			// two groupings of one name in unrelated scopes (each defined in a container of another grouping's body), the
+			// second reached from the first through a third grouping: a chain of uses that comes by the name twice, not
+			// by a grouping twice - no cycle
+			str := &sg.TypeSpec{Name: "string"}
+			gz, gy, nt := x.id("nz"), x.id("ny"), x.id("nt")
+			m.Groupings = append(m.Groupings,
+				&sg.Grouping{Name: gz, Kids: []*sg.Node{{Kind: "container", Name: "nzc", Groupings: []*sg.Grouping{{Name: "nx", Kids: []*sg.Node{{Kind: "leaf", Name: "nzl", Type: str}}}},
+					Kids: []*sg.Node{{Kind: "uses", Name: "nx"}}}}},
+				&sg.Grouping{Name: gy, Kids: []*sg.Node{{Kind: "container", Name: "nyc", Groupings: []*sg.Grouping{{Name: "nx", Kids: []*sg.Node{{Kind: "uses", Name: m.Prefix + ":" + gz}}}},
+					Kids: []*sg.Node{{Kind: "uses", Name: "nx"}, {Kind: "leaf", Name: "nyl", Type: str}}}}})
+			m.Nodes = append(m.Nodes, &sg.Node{Kind: "container", Name: nt, Kids: []*sg.Node{{Kind: "uses", Name: gy}}})
 		}
 		// module-level augments: own top, and a top of an imported module
 		if g.Chance(1, 2, "ownaug") {
